@@ -98,8 +98,84 @@ def std_case(rng, V, sos, N, T, B, dicts, p_sos=0.15):
     hist = gen_hist(rng, V, sos, T, B, p_sos)
     chunks = list(range(1, T + 3))
     idxs = [[i] for i in range(T + 1)][:3] + [[rng.randrange(T + 1) for _ in range(B)] for _ in range(3)]
-    return {"kind": "table", "V": V, "sos": sos, "dicts": dicts, "B": B, "hist": hist,
-            "chunks": chunks, "idxs": idxs}
+    return pick_layout(rng, {"kind": "table", "V": V, "sos": sos, "dicts": dicts, "B": B, "hist": hist,
+                             "chunks": chunks, "idxs": idxs})
+
+
+LAYOUTS = ("contig", "transposed", "offset", "row_stride", "col_slice", "bf_slice", "bcast")
+
+
+def make_view(case):
+    """The memory layout of the (T, B) history tensor: storage, storage offset, strides.
+    Derived deterministically from case["layout"] = {"kind", "salt"} and the logical history, so
+    that shrinking the history keeps the layout kind. Cells of the storage that the view does
+    not show hold valid tokens (a reader that looks at the wrong cell gets a wrong but legal id).
+    None = the plain row-major tensor."""
+    lay = case.get("layout")
+    if not lay or lay["kind"] == "contig":
+        return None
+    import random
+    kind, salt = lay["kind"], lay["salt"]
+    hist, B, V, sos = case["hist"], case["B"], case["V"], case["sos"]
+    T = len(hist)
+    toks = list(range(V)) + ([] if 0 <= sos < V else [sos])
+    r = random.Random(salt * 1000003 + 17)
+
+    def junk(n):
+        return [r.choice(toks) for _ in range(n)]
+    flat = [x for row in hist for x in row]
+    if kind == "transposed":          # batch_first.t()
+        v = {"storage": [hist[t][b] for b in range(B) for t in range(T)], "off": 0, "sT": 1, "sB": max(T, 1)}
+    elif kind == "offset":            # longer[k:]  (is_contiguous() is True, storage_offset() is not 0)
+        k = 1 + salt % 3
+        v = {"storage": junk(k * B) + flat + junk(B), "off": k * B, "sT": B, "sB": 1}
+    elif kind == "row_stride":        # longer[o::2]
+        o = salt % 2
+        st = junk(o * B)
+        for row in hist:
+            st += list(row) + junk(B)
+        v = {"storage": st, "off": o * B, "sT": 2 * B, "sB": 1}
+    elif kind == "col_slice":         # wider[:, a:a+B]
+        W = B + 1 + salt % 2
+        a = salt % (W - B + 1)
+        st = []
+        for row in hist:
+            st += junk(a) + list(row) + junk(W - B - a)
+        v = {"storage": st + junk(W), "off": a, "sT": W, "sB": 1}
+    elif kind == "bf_slice":          # wider_batch_first[1:1+B, 1:1+T].t()
+        W = T + 2
+        st = junk(W)
+        for b in range(B):
+            st += junk(1) + [hist[t][b] for t in range(T)] + junk(1)
+        v = {"storage": st, "off": W + 1, "sT": 1, "sB": W}
+    elif kind == "bcast":             # column.expand(T, B): every batch element has the same history
+        v = {"storage": [row[0] for row in hist] + junk(1), "off": 0, "sT": 1, "sB": 0}
+    else:
+        raise ValueError(kind)
+    return v
+
+
+def pick_layout(rng, case, p_contig=0.35):
+    """Attach a layout (and a history dtype) to a table case."""
+    kind = "contig" if rng.random() < p_contig else rng.choice(LAYOUTS[1:])
+    if kind == "bcast":
+        case["hist"] = [[row[0]] * case["B"] for row in case["hist"]]
+    case["layout"] = {"kind": kind, "salt": rng.randrange(1000)}
+    case["hist_dtype"] = rng.choice(("int64", "int64", "int32"))
+    case["ctor"] = rng.choice(("positional",) * 4 + ("destructive", "prob_list"))
+    return case
+
+
+def idx_forms(hidx, T):
+    """Other spellings of the same index that `forward` accepts: python int, one-element vector,
+    negative values (idx - T - 1)."""
+    import torch
+    if len(hidx) == 1:
+        i = hidx[0]
+        return [("int", i), ("vec1", torch.tensor([i])), ("neg_int", i - T - 1),
+                ("neg_scalar", torch.tensor(i - T - 1))]
+    neg = [(x - T - 1) if k % 2 == 0 else x for k, x in enumerate(hidx)]
+    return [("neg_mixed", torch.tensor(neg)), ("int32", torch.tensor(hidx, dtype=torch.int32))]
 
 
 class C06(PropertyCheck):
@@ -130,6 +206,54 @@ class C06(PropertyCheck):
             for N in (1, 2, 3, 4):
                 dicts = gen_table(rng, V, sos, N, 0.5 if V <= 2 else 0.25, 0.15, 0.7, max_top=12)
                 yield std_case(rng, V, sos, N, rng.randrange(0, 7), rng.randrange(1, 4), dicts)
+        # (order: the small complete streams first - layouts, ARPA option grid, malformed, sizes - so that a slow
+        # machine's time budget can only cut into the random bulk, never into a whole class of input)
+        # 4b. memory layouts of the history tensor: every kind of view x order x batch width, T >= 3
+        for kind in LAYOUTS[1:]:
+            for N in (2, 3, 4):
+                for B in (2, 3):
+                    V = rng.choice((2, 3, 4))
+                    sos = rng.choice((0, -1, V))
+                    dicts = gen_table(rng, V, sos, N, 0.5, 0.1, 0.5, max_top=15)
+                    c = std_case(rng, V, sos, N, rng.randrange(3, 8), B, dicts)
+                    c["hist"] = gen_hist(rng, V, sos, len(c["hist"]), B, 0.1)
+                    if kind == "bcast":
+                        c["hist"] = [[row[0]] * B for row in c["hist"]]
+                    c["layout"] = {"kind": kind, "salt": rng.randrange(1000)}
+                    yield c
+        # 6. ARPA
+        for _ in range({"quick": 80, "thorough": 500, "search": 100}[tier]):
+            V = rng.choice((2, 3, 5))
+            N = rng.choice((1, 2, 3))
+            dicts = gen_table(rng, V, 0, N, 0.4, 0.0, 0.0, max_top=8)
+            style = rng.choice(("fixed", "repr", "exp"))
+            yield {"kind": "arpa", "V": V, "dicts": dicts, "implicit": rng.random() < 0.5, "style": style,
+                   "numeric_tokens": rng.random() < 0.5, "blank_lines": rng.random() < 0.5,
+                   # every option of the reader x every way of handing the file over
+                   "base_e": rng.choice((True, True, False, False, None)),
+                   "entry": rng.choice(("fileobj", "path", "path", "opened")),
+                   "ftype": rng.choice(("float", "float", "np.float64", "np.float32")),
+                   "token2id": rng.random() < 0.4, "logger": rng.random() < 0.25,
+                   "call": rng.choice(("keyword", "positional")),
+                   "corrupt": rng.choice((None,) * 7 + ("count", "no_end", "no_data"))}
+        # the full grid entry x base once each, on a fixed small table
+        for entry in ("fileobj", "path", "opened"):
+            for base_e in (True, False, None):
+                for call in ("keyword", "positional"):
+                    dicts = gen_table(rng, 3, 0, 2, 0.5, 0.0, 0.0, max_top=6)
+                    yield {"kind": "arpa", "V": 3, "dicts": dicts, "implicit": False, "style": "fixed",
+                           "numeric_tokens": False, "blank_lines": False, "base_e": base_e, "entry": entry,
+                           "ftype": "float", "token2id": call == "positional", "logger": False, "call": call,
+                           "corrupt": None}
+        # 5. malformed tables: ValueError expected
+        yield from self.malformed(rng)
+        # 4. size stream: offsets cross the uint8 / int16 boundary
+        sizes = [(127, -1, "fan"), (126, 3, "fan"), (127, -1, "fan1"), (30, 0, 300), (40, -1, 500), (12, 2, 200)]
+        if tier != "quick":
+            sizes += [(128, -1, "fan"), (125, -1, "fan"), (60, 0, 1500), (200, -1, 700), (253, 0, 300),
+                      (254, 0, 300), (255, -1, 400), (300, 7, 600)]
+        for V, sos, what in sizes:
+            yield self.size_case(rng, V, sos, what)
         # 2. random sparse tables
         for _ in range(n_rand):
             V = rng.choice((1, 2, 2, 3, 3, 4))
@@ -160,24 +284,6 @@ class C06(PropertyCheck):
                 idxs.append([rng.choice(ok) for _ in range(B)])
             yield {"kind": "table", "V": V, "sos": sos, "dicts": dicts, "B": B, "hist": hist, "chunks": [],
                    "idxs": idxs, "oov": True}
-        # 4. size stream: offsets cross the uint8 / int16 boundary
-        sizes = [(127, -1, "fan"), (126, 3, "fan"), (127, -1, "fan1"), (30, 0, 300), (40, -1, 500), (12, 2, 200)]
-        if tier != "quick":
-            sizes += [(128, -1, "fan"), (125, -1, "fan"), (60, 0, 1500), (200, -1, 700), (253, 0, 300),
-                      (254, 0, 300), (255, -1, 400), (300, 7, 600)]
-        for V, sos, what in sizes:
-            yield self.size_case(rng, V, sos, what)
-        # 5. malformed tables: ValueError expected
-        yield from self.malformed(rng)
-        # 6. ARPA
-        for _ in range({"quick": 80, "thorough": 500, "search": 100}[tier]):
-            V = rng.choice((2, 3, 5))
-            N = rng.choice((1, 2, 3))
-            dicts = gen_table(rng, V, 0, N, 0.4, 0.0, 0.0, max_top=8)
-            style = rng.choice(("fixed", "repr", "exp"))
-            yield {"kind": "arpa", "V": V, "dicts": dicts, "implicit": rng.random() < 0.5, "style": style,
-                   "numeric_tokens": rng.random() < 0.5, "blank_lines": rng.random() < 0.5,
-                   "base_e": rng.random() < 0.5}
 
     def size_case(self, rng, V, sos, what):
         shift = 0 if 0 <= sos < V else 1
@@ -231,7 +337,13 @@ class C06(PropertyCheck):
         with warnings.catch_warnings():
             warnings.simplefilter("ignore")
             try:
-                lm = LookupLanguageModel(V, sos, to_prob_dicts(case["dicts"]))
+                ctor = case.get("ctor", "positional")
+                if ctor == "destructive":
+                    lm = LookupLanguageModel(V, sos, to_prob_dicts(case["dicts"]), True)
+                elif ctor == "prob_list":
+                    lm = LookupLanguageModel(V, sos, prob_list=to_prob_dicts(case["dicts"]))
+                else:
+                    lm = LookupLanguageModel(V, sos, to_prob_dicts(case["dicts"]))
             except Exception as e:
                 return {"build_error": type(e).__name__, "message": str(e)[:200]}
             out = {"build": {
@@ -240,8 +352,17 @@ class C06(PropertyCheck):
                 "logps": [frac_str(x) for x in lm.logps.tolist()],
                 "logbs": [frac_str(x) for x in lm.logbs.tolist()],
                 "offBits": BITS[str(lm.offsets.dtype)], "idBits": BITS[str(lm.ids.dtype)]}}
-            hist = torch.tensor(case["hist"], dtype=torch.long).view(len(case["hist"]), B)
-            T = hist.size(0)
+            dtype = {"int64": torch.long, "int32": torch.int32}[case.get("hist_dtype", "int64")]
+            T = len(case["hist"])
+            view = make_view(case)
+            if view is None:
+                hist = torch.tensor(case["hist"], dtype=dtype).view(T, B)
+            else:
+                hist = torch.tensor(view["storage"], dtype=dtype).as_strided(
+                    (T, B), (view["sT"], view["sB"]), view["off"])
+                if hist.tolist() != [list(r) for r in case["hist"]]:
+                    raise AssertionError("harness: the laid-out tensor does not show the case's history")
+            out["hist_is_contiguous"] = bool(hist.is_contiguous())
             lm2 = LookupLanguageModel(V, sos)
             try:
                 lm2.load_state_dict(lm.state_dict())
@@ -258,11 +379,22 @@ class C06(PropertyCheck):
                     out["reloaded_full"] = tens3(lm2(hist))
             out["idx"] = []
             out["reloaded_idx"] = []
-            for hidx in case["idxs"]:
+            out["idx_form_diffs"] = []
+            for j, hidx in enumerate(case["idxs"]):
                 it = torch.tensor(hidx[0] if len(hidx) == 1 else hidx, dtype=torch.long)
-                out["idx"].append(tens2(lm(hist, idx=it)[0]))
+                got = tens2(lm(hist, idx=it)[0])
+                out["idx"].append(got)
                 if lm2 is not None:
                     out["reloaded_idx"].append(tens2(lm2(hist, idx=it)[0]))
+                if j in (0, 3) and all(0 <= i <= T for i in hidx):
+                    # the same index spelled differently (python int, one-element vector, negative)
+                    for name, alt in idx_forms(hidx, T):
+                        try:
+                            g = tens2(lm(hist, idx=alt)[0])
+                        except Exception as e:
+                            g = {"error": type(e).__name__}
+                        if g != got:
+                            out["idx_form_diffs"].append(f"idx={hidx} as {name}: {g} instead of {got}")
         return out
 
     # ------------------------------------------------------------------ ARPA
@@ -295,36 +427,99 @@ class C06(PropertyCheck):
                               {"t": "entry", "logp": e["logp"], "fields": fields}))
             items.append(("", {"t": "blank"}))
         items.append(("\\end\\", {"t": "end"}))
+        corrupt = case.get("corrupt")
+        if corrupt == "count":       # one order announces one entry more than it lists
+            k = next(i for i, (_, l) in enumerate(items) if l["t"] == "count")
+            l = items[k][1]
+            items[k] = ("ngram %d=%d" % (l["n"], l["c"] + 1), dict(l, c=l["c"] + 1))
+        elif corrupt == "no_end":
+            items.pop()
+        elif corrupt == "no_data":
+            items = [it for it in items if it[1]["t"] != "data"]
         if case["blank_lines"]:
             items = [x for it in items for x in (it, ("  ", {"t": "blank"}))]
         return "\n".join(t for t, _ in items) + "\n", [l for _, l in items]
 
+    @staticmethod
+    def arpa_names(case):
+        return (lambda t: str(t * 3 + 1)) if case["numeric_tokens"] else (lambda t: "w%d" % t)
+
+    @staticmethod
+    def arpa_ftype(case):
+        import numpy as np
+        return {"float": float, "np.float64": np.float64, "np.float32": np.float32}[case.get("ftype", "float")]
+
     def run_arpa(self, case):
+        import logging
+        import os
+        import tempfile
         from pydrobert.torch.data import parse_arpa_lm
         text, _ = self.arpa_file(case)
-        with warnings.catch_warnings():
-            warnings.simplefilter("ignore")
-            pds = parse_arpa_lm(io.StringIO(text), to_base_e=case["base_e"])
+        names = self.arpa_names(case)
+        token2id = {names(t): t for t in range(case["V"])} if case.get("token2id") else None
+        ftype = self.arpa_ftype(case)
+        logger = None
+        if case.get("logger"):
+            logger = logging.getLogger("verif.c06.arpa")
+            logger.propagate = False
+            logger.setLevel(logging.INFO)
+            if not logger.handlers:
+                logger.addHandler(logging.NullHandler())
+        entry = case.get("entry", "fileobj")
+        tmp = None
+        fobj = None
+        try:
+            if entry == "fileobj":
+                arg = io.StringIO(text)
+            else:
+                fd, tmp = tempfile.mkstemp(suffix=".arpa", prefix="verif_c06_")
+                with os.fdopen(fd, "w") as f:
+                    f.write(text)
+                arg = tmp if entry == "path" else open(tmp)
+                fobj = None if entry == "path" else arg
+            with warnings.catch_warnings():
+                warnings.simplefilter("ignore")
+                try:
+                    if case.get("call", "keyword") == "positional":
+                        pds = parse_arpa_lm(arg, token2id, case["base_e"], ftype, logger)
+                    else:
+                        kw = {"ftype": ftype, "logger": logger, "token2id": token2id}
+                        if case["base_e"] is not None:   # None = leave the (deprecated) default: base 10
+                            kw["to_base_e"] = case["base_e"]
+                        pds = parse_arpa_lm(arg, **kw)
+                except (IOError, KeyError, ValueError) as e:
+                    return {"read_error": type(e).__name__, "message": str(e)[:200]}
+        finally:
+            if fobj is not None:
+                fobj.close()
+            if tmp is not None:
+                os.remove(tmp)
         N = len(pds)
         out = []
+        types_ok = True
         for n, pd in enumerate(pds):
             d = []
             for k, v in pd.items():
                 key = [k] if n == 0 else list(k)
                 if n == N - 1:
+                    types_ok = types_ok and isinstance(v, ftype)
                     d.append({"key": key, "logp": float(v), "logb": None})
                 else:
+                    types_ok = types_ok and isinstance(v[0], ftype) and isinstance(v[1], ftype)
                     d.append({"key": key, "logp": float(v[0]), "logb": float(v[1])})
             out.append(d)
-        return {"dicts": out}
+        return {"dicts": out, "types_ok": types_ok}
 
     # ------------------------------------------------------------------ model
     def model_request(self, case):
         if case["kind"] == "arpa":
             return {"op": "c06.arpa", "case": {"lines": self.arpa_file(case)[1]}}
-        return {"op": "c06.table", "case": {
-            "V": case["V"], "sos": case["sos"], "dicts": case["dicts"], "B": case["B"], "hist": case["hist"],
-            "chunks": case["chunks"], "idxs": case["idxs"]}}
+        req = {"V": case["V"], "sos": case["sos"], "dicts": case["dicts"], "B": case["B"], "hist": case["hist"],
+               "chunks": case["chunks"], "idxs": case["idxs"]}
+        view = make_view(case)
+        if view is not None:
+            req["view"] = view
+        return {"op": "c06.table", "case": req}
 
     # ------------------------------------------------------------------ comparison
     def compare(self, case, impl, model):
@@ -352,6 +547,8 @@ class C06(PropertyCheck):
                     out.append(f"buffer {k}[{i}]: impl={a[k][i]} model={b[k][i]}")
         if impl["shape"] != model["shape"]:
             out.append(f"load_state_dict shape: impl={impl['shape']} model={model['shape']}")
+        if impl["hist_is_contiguous"] != model["view_contig"]:
+            out.append(f"hist.is_contiguous(): impl={impl['hist_is_contiguous']} model={model['view_contig']}")
         if not case.get("oov"):
             if impl["full"] != model["full"]:
                 out.append("full log-probs differ from the model: " + first_diff3(impl["full"], model["full"]))
@@ -368,20 +565,26 @@ class C06(PropertyCheck):
 
     def compare_arpa(self, case, impl, model):
         want = model.get("parsed")
+        if "read_error" in impl:
+            if want is not None:
+                return [f"the reader raised {impl['read_error']} ({impl.get('message')}) but the model reads the file"]
+            return [] if impl["read_error"] in ("OSError", "IOError") else \
+                [f"the reader raised {impl['read_error']}, the model's error class is IOError"]
         if want is None:
-            return [f"model rejects the ARPA lines: {model}"]
-        if case["base_e"]:
-            conv = math.log10(math.e)   # the reader divides by this float
+            return [f"model rejects the ARPA lines ({model.get('error')}) but the reader returned a table"]
+        ft = self.arpa_ftype(case)
+        conv = ft(math.log10(math.e)) if case["base_e"] else ft(1.0)   # the reader divides by this number
+        names = self.arpa_names(case)
+        back = {names(t): t for t in range(case["V"])}
         got = [sorted(([e["key"], e["logp"], e["logb"]] for e in d), key=repr) for d in impl["dicts"]]
         w = []
         for d in want:
             rows = []
             for e in d:
-                p = _val(e["logp"])
-                b = None if e["logb"] is None else _val(e["logb"])
-                if case["base_e"]:
-                    p, b = p / conv, (None if b is None else b / conv)
-                rows.append([e["key"], p, b])
+                p = float(ft(_val(e["logp"])) / conv)
+                b = None if e["logb"] is None else float(ft(_val(e["logb"])) / conv)
+                key = [back[t] for t in e["key"]] if case.get("token2id") else e["key"]
+                rows.append([key, p, b])
             w.append(sorted(rows, key=repr))
         return [] if got == w else [f"parsed table impl={got} model={w}"]
 
@@ -395,7 +598,12 @@ class C06(PropertyCheck):
         if model["shape"] != {"N": bld["N"], "G": bld["G"], "S": bld["S"]}:
             raise AssertionError(f"Lean model: inferShape(buildTrie) = {model['shape']} but buildTrie has "
                                  f"N={bld['N']} G={bld['G']} S={bld['S']}")
+        if not model["view_rows_ok"]:
+            raise AssertionError("Lean model: the view's logical rows are not the case's history")
         if not case.get("oov"):
+            if not model["flat_agree"]:
+                raise AssertionError("Lean model: chunked evaluation on the view differs from the one on "
+                                     "the logical rows (theorem C06_chunk_layout says they agree)")
             if model["full"] != model["spec_full"]:
                 raise AssertionError("Lean model and Lean spec disagree: "
                                      + first_diff3(model["full"], model["spec_full"]))
@@ -435,6 +643,11 @@ class C06(PropertyCheck):
         elif impl["shape"]["N"] != N:
             fails.append((f"reloaded instance has max_ngram={impl['shape']['N']}, table has order {N}",
                           "C06.load_state_dict.order"))
+        lay = (case.get("layout") or {}).get("kind", "contig")
+        suffix = "" if lay == "contig" else "@layout=" + lay
+        for d in impl.get("idx_form_diffs", []):
+            fails.append((f"the same index spelled differently gives different log-probabilities: {d}",
+                          "C06.value.idx_form"))
         if not case.get("oov"):
             for name, got in ([("all positions at once", impl["full"]), ("one index at a time", impl["byidx"])]
                               + [(f"chunk_size={c}", impl["chunked"][str(c)]) for c in case["chunks"]]
@@ -442,24 +655,39 @@ class C06(PropertyCheck):
                                  if "reloaded_full" in impl else [])):
                 if got != spec:
                     fails.append((f"{name}: log-probabilities differ from Katz back-off on the table: "
-                                  + first_diff3(got, spec), "C06.value." + name.split("=")[0].replace(" ", "_")))
+                                  + first_diff3(got, spec) + (f" (history tensor laid out as {lay})" if suffix else ""),
+                                  "C06.value." + name.split("=")[0].replace(" ", "_") + suffix))
         for j, hidx in enumerate(case["idxs"]):
             hv = hidx * B if len(hidx) == 1 else hidx
             want = [spec[hv[b]][b] for b in range(B)]
             if impl["idx"][j] != want:
-                fails.append((f"idx={hidx}: {impl['idx'][j]} differs from Katz back-off {want}", "C06.value.idx"))
+                fails.append((f"idx={hidx}: {impl['idx'][j]} differs from Katz back-off {want}",
+                              "C06.value.idx" + suffix))
             if impl["reloaded_idx"] and impl["reloaded_idx"][j] != want:
-                fails.append((f"idx={hidx} after reload: differs from Katz back-off", "C06.value.idx_reloaded"))
+                fails.append((f"idx={hidx} after reload: differs from Katz back-off",
+                              "C06.value.idx_reloaded" + suffix))
         return fails
 
     def predicate_arpa(self, case, impl):
         """Reading the file yields exactly its listed entries (base 10 exactly; base e within 1e-12 relative)."""
         fails = []
+        how = f"entry={case.get('entry', 'fileobj')}, to_base_e={case['base_e']}, ftype={case.get('ftype', 'float')}"
+        if case.get("corrupt"):
+            if "read_error" not in impl:
+                fails.append((f"a file that is not well-formed ({case['corrupt']}) was read without an error",
+                              "C06.arpa.corrupt_accepted"))
+            return fails
+        if "read_error" in impl:
+            return [(f"reading a well-formed ARPA file raised {impl['read_error']}: {impl.get('message')} ({how})",
+                     "C06.arpa.raises")]
         conv = math.log(10.0) if case["base_e"] else 1.0
+        tol = 1e-6 if case.get("ftype") == "np.float32" else 1e-12
         N = len(case["dicts"])
         if len(impl["dicts"]) != N:
             return [(f"{len(impl['dicts'])} orders read, {N} written", "C06.arpa.orders")]
-        names = (lambda t: str(t * 3 + 1)) if case["numeric_tokens"] else (lambda t: "w%d" % t)
+        if not impl.get("types_ok", True):
+            fails.append((f"values are not instances of the requested ftype ({how})", "C06.arpa.ftype"))
+        names = self.arpa_names(case) if not case.get("token2id") else (lambda t: t)
         for n, (d, got) in enumerate(zip(case["dicts"], impl["dicts"])):
             want = {tuple(names(t) for t in e["key"]):
                     (self.printed(case, e["logp"]), None if n == N - 1 else self.printed(case, e.get("logb", "0")))
@@ -475,8 +703,8 @@ class C06(PropertyCheck):
                         fails.append((f"order {n + 1} {k}: back-off presence differs", "C06.arpa.logb"))
                     elif a is not None:
                         x = a * conv
-                        if (b != x) if not case["base_e"] else (abs(b - x) > 1e-12 * max(1.0, abs(x))):
-                            fails.append((f"order {n + 1} {k}: read {b!r}, file lists {a!r} (x{conv})",
+                        if (b != x) if not case["base_e"] else (abs(b - x) > tol * max(1.0, abs(x))):
+                            fails.append((f"order {n + 1} {k}: read {b!r}, file lists {a!r} (x{conv}; {how})",
                                           "C06.arpa.value"))
         return fails
 
@@ -504,7 +732,11 @@ class C06(PropertyCheck):
 
     def tags(self, case, impl):
         if case["kind"] == "arpa":
-            return ["arpa", "arpa:base_e" if case["base_e"] else "arpa:base10",
+            return ["arpa", "arpa:to_base_e=" + str(case["base_e"]), "arpa:entry=" + case.get("entry", "fileobj"),
+                    "arpa:ftype=" + case.get("ftype", "float"), "arpa:token2id=" + str(bool(case.get("token2id"))),
+                    "arpa:call=" + case.get("call", "keyword"), "arpa:logger=" + str(bool(case.get("logger"))),
+                    "arpa:corrupt=" + str(case.get("corrupt")),
+                    "arpa:entry=%s,to_base_e=%s" % (case.get("entry", "fileobj"), case["base_e"]),
                     "arpa:implicit_backoff" if case["implicit"] else "arpa:explicit_backoff",
                     "arpa:numeric_tokens" if case["numeric_tokens"] else "arpa:word_tokens"]
         V, sos = case["V"], case["sos"]
@@ -513,6 +745,11 @@ class C06(PropertyCheck):
         for k in ("oov", "size", "malformed"):
             if case.get(k):
                 t.append(k)
+        t.append("layout=" + (case.get("layout") or {}).get("kind", "contig"))
+        t.append("hist_dtype=" + case.get("hist_dtype", "int64"))
+        t.append("ctor=" + case.get("ctor", "positional"))
+        if isinstance(impl, dict) and "hist_is_contiguous" in impl:
+            t.append("hist.is_contiguous=" + str(impl["hist_is_contiguous"]))
         if isinstance(impl, dict) and "build" in impl:
             t.append(f"offsets_bits={impl['build']['offBits']}")
             n_listed = sum(len(d) for d in case["dicts"])
@@ -531,6 +768,12 @@ class C06(PropertyCheck):
         if case["kind"] != "table":
             return
         dicts = case["dicts"]
+        if (case.get("layout") or {}).get("kind", "contig") != "contig":
+            yield dict(case, layout={"kind": "contig", "salt": 0})
+        if case.get("hist_dtype", "int64") != "int64":
+            yield dict(case, hist_dtype="int64")
+        if case.get("ctor", "positional") != "positional":
+            yield dict(case, ctor="positional")
         # fewer positions / batch elements
         if len(case["hist"]) > 0:
             T = len(case["hist"]) - 1
